@@ -41,7 +41,7 @@ def rule(tier):
 def floors(tier):
     return {"evaluations": 6000, "distinct": 5000,
             "counters": {"corpus_archives": 5000, "roundtrip_identical": 5000, "rechunk_cases": 1500 if tier == "quick" else 15000,
-                         "multi_chunk_streams": 50, "stored_chunks_decoded": 200, "synthetic_archives": 60, "synthetic_with_patch_messages": 40, "synthetic_incompressible_64k": 20, "payload_over_65535": 5, "synthetic_exact_64k_multiple": 6, "generated_doc_archives": 300,
+                         "multi_chunk_streams": 50, "stored_chunks_decoded": 200, "synthetic_archives": 60, "synthetic_with_patch_messages": 40, "synthetic_headers_at_varint_boundaries": 10, "synthetic_incompressible_64k": 20, "payload_over_65535": 5, "synthetic_exact_64k_multiple": 6, "generated_doc_archives": 300,
                          "contract:iwa_encode": 5000, "contract:iwa_decode": 5000}}
 
 
@@ -343,6 +343,29 @@ def synth_exact(total, rng, nseg=1):
     return None
 
 
+def synth_header(target):
+    """One segment whose header (ArchiveInfo) is about `target` bytes long: object references are added until it is."""
+    from numbers_parser.generated import TSTArchives_pb2 as TST
+    from numbers_parser.generated.mapping import NAME_ID_MAP
+    from numbers_parser.generated.TSPArchiveMessages_pb2 import ArchiveInfo
+    from vf.ref import iwa
+    m = TST.TableDataList(listType=TST.TableDataList.ListType.STRING, nextListID=1).SerializeToString()
+    ai = ArchiveInfo(identifier=4000)
+    mi = ai.message_infos.add()
+    mi.type = NAME_ID_MAP["TST.TableDataList"]
+    mi.version.extend([1, 0, 5])
+    mi.length = len(m)
+    while ai.ByteSize() < target - 3 and len(mi.object_references) < 80000:
+        mi.object_references.append(100 + len(mi.object_references) % 20)  # one byte each
+    for extra in (200, 20000, 3000000):  # 2-, 3- and 4-byte values to close in on the size
+        while ai.ByteSize() < target:
+            mi.object_references.append(extra)
+            if ai.ByteSize() > target:
+                del mi.object_references[-1]
+                break
+    return iwa.build([(ai, [m])]), ai.ByteSize()
+
+
 def synth_merge(rng, nseg):
     """Merged segments (ArchiveInfo.should_merge): full messages of different types followed by untyped patch messages, each
     naming its base by MessageInfo.base_message_index - adjacent or not, in any order.  Decoding and encoding reproduces every
@@ -381,6 +404,17 @@ def synth_merge(rng, nseg):
             mi.version.extend([1, 0, 5])
             mi.length = len(m)
             mi.base_message_index = base
+            # what a patch may say about itself: the path of the field it replaces (none, one or several steps), fields to remove, versions
+            k2 = rng.random()
+            if k2 < .6:
+                mi.diff_field_path.path.extend([rng.randrange(1, 12) for _ in range(rng.choice([1, 1, 2, 2, 3]))])
+            if rng.random() < .3:
+                fp = mi.fields_to_remove.add()
+                fp.path.extend([rng.randrange(1, 12) for _ in range(rng.randint(1, 2))])
+            if rng.random() < .3:
+                mi.diff_merge_version.extend([1, 0, 5])
+            if rng.random() < .2:
+                mi.diff_read_version.extend([2, 0, 0])
             msgs.append(m)
         segs.append((ai, msgs))
     return iwa.build(segs)
@@ -422,6 +456,15 @@ def run_synthetic(spec, rec):
         check_stream(b, rec, f"synthetic:{total}/{nseg}/{int(multi)}/{int(unknown)}/{int(entropy)}",
                      {"part": "synthetic", "total": total, "nseg": nseg, "multi": multi, "unknown": unknown, "entropy": entropy, "seed": spec["seed"], "stream": spec["stream"]},
                      rechunk=rc, rng=rng)
+    # segment headers whose length prefix sits at the varint boundaries (1 -> 2 bytes at 128, 2 -> 3 bytes at 16384) and well beyond
+    if spec["stream"] == 0:
+        for target in (126, 127, 128, 129, 16382, 16383, 16384, 16385, 20000, 32766, 32767, 32768, 32769, 70000):
+            p, hdr_len = synth_header(target)
+            b, _ = iwa.frame(p)
+            rec.count("synthetic_archives")
+            rec.count("synthetic_headers_at_varint_boundaries")
+            rec.hist("header_length", hdr_len)
+            check_stream(b, rec, f"synthetic-header:{target}", {"part": "synthetic-header", "target": target}, rechunk=1, rng=rng)
     # merged segments with patch messages
     for j in range(12 if spec["tier"] == "quick" else 120):
         rm = random.Random(f"C05-merge-{spec['seed']}-{spec['stream']}-{j}")  # its own stream: a witness is rebuilt from (seed, stream, j)
@@ -485,6 +528,10 @@ def replay(case, rec):
                     _replay_cuts(b, case, rec)
                 else:
                     check_stream(b, rec, "replay:" + name, case, rechunk=5, rng=rng)
+    elif part == "synthetic-header":
+        p, _ = synth_header(case["target"])
+        b, _ = iwa.frame(p)
+        check_stream(b, rec, "replay:synthetic-header", case, rechunk=1, rng=rng)
     elif part == "synthetic-merge":
         rm = random.Random(f"C05-merge-{case['seed']}-{case['stream']}-{case['j']}")
         p = synth_merge(rm, rm.choice([1, 2, 5, 20]))
